@@ -40,6 +40,26 @@ type mutant struct {
 	Old   string `json:"old"`
 	New   string `json:"new"`
 	Count int    `json:"count"` // expected number of occurrences (default 1)
+	// ContentFrom, if set, replaces the whole file with the content of that path (old/new ignored)
+	ContentFrom string `json:"content_from"`
+}
+
+func applyMutant(rel string, src []byte, m mutant) []byte {
+	if m.ContentFrom != "" {
+		data, err := os.ReadFile(m.ContentFrom)
+		if err != nil {
+			die("mutant for %s: %v", rel, err)
+		}
+		return data
+	}
+	cnt := m.Count
+	if cnt == 0 {
+		cnt = 1
+	}
+	if c := strings.Count(string(src), m.Old); c != cnt {
+		die("mutant for %s: pattern occurs %d times, expected %d", rel, c, cnt)
+	}
+	return []byte(strings.ReplaceAll(string(src), m.Old, m.New))
 }
 
 var (
@@ -125,14 +145,7 @@ func main() {
 			rel := filepath.Join(dir, n)
 			wasMut := false
 			for _, m := range muts[rel] {
-				cnt := m.Count
-				if cnt == 0 {
-					cnt = 1
-				}
-				if c := strings.Count(string(src), m.Old); c != cnt {
-					die("mutant for %s: pattern occurs %d times, expected %d", rel, c, cnt)
-				}
-				src = []byte(strings.ReplaceAll(string(src), m.Old, m.New))
+				src = applyMutant(rel, src, m)
 				wasMut = true
 			}
 			delete(muts, rel)
@@ -331,14 +344,7 @@ func main() {
 			die("mutant: %v", err)
 		}
 		for _, m := range list {
-			cnt := m.Count
-			if cnt == 0 {
-				cnt = 1
-			}
-			if c := strings.Count(string(src), m.Old); c != cnt {
-				die("mutant for %s: pattern occurs %d times, expected %d", rel, c, cnt)
-			}
-			src = []byte(strings.ReplaceAll(string(src), m.Old, m.New))
+			src = applyMutant(rel, src, m)
 		}
 		dst := filepath.Join(ovDir, strings.ReplaceAll(rel, "/", "__"))
 		if err := os.WriteFile(dst, src, 0o644); err != nil {
